@@ -123,10 +123,10 @@ Variable fb : Z -> Z -> Z -> E * E.            (* float Repr<B>: base, significa
 Variable qb : Z -> Z -> E * E.                 (* rational Repr: numerator, denominator *)
 
 (** the filter shared by all bodies: lhs_lo > rhs_hi => Greater; lhs_hi < rhs_lo => Less; else exact *)
-Definition est_filter (l r : E * E) (sign : sign) (exact : comparison) : comparison :=
+Definition est_filter (l r : E * E) (sign : sign) (exact : unit -> comparison) : comparison :=
   if egt (fst l) (snd r) then smul sign Gt
   else if egt (fst r) (snd l) then smul sign Lt
-  else exact.
+  else exact tt.
 
 (* ================================================================================================
    float crate
@@ -140,7 +140,7 @@ Definition repr_num_cmp (B1 s1 e1 B2 s2 e2 : Z) : comparison :=
   | false, false =>
     sign_filter (sign_of s1) (sign_of s2) (fun sign =>
       est_filter (fb B1 s1 e1) (fb B2 s2 e2) sign
-        (let '(lhs, rhs) := if e1 <? 0 then (s1, shl_digits B1 s2 (- e1)) else (shl_digits B1 s1 e1, s2) in
+        (fun _ => let '(lhs, rhs) := if e1 <? 0 then (s1, shl_digits B1 s2 (- e1)) else (shl_digits B1 s1 e1, s2) in
          let '(lhs, rhs) := if e2 <? 0 then (shl_digits B2 lhs (- e2), rhs) else (lhs, shl_digits B2 rhs e2) in
          lhs ?= rhs))
   end.
@@ -151,7 +151,7 @@ Definition frepr_cmp_ubig (abs : bool) (B s e u : Z) : comparison :=
   else if negb abs && (match sign_of s with Negative => true | Positive => false end) then Lt
   else
     est_filter (fb B s e) (ib u) Positive
-      (if e <? 0 then
+      (fun _ => if e <? 0 then
          let rhs := shl_digits B u (- e) in
          if abs then Z.abs s ?= Z.abs rhs else s ?= rhs
        else
@@ -164,7 +164,7 @@ Definition frepr_cmp_ibig (abs : bool) (B s e i : Z) : comparison :=
   else
     let k := fun sign =>
       est_filter (fb B s e) (ib i) sign
-        (if e <? 0 then
+        (fun _ => if e <? 0 then
            let rhs := shl_digits B i (- e) in
            if abs then Z.abs s ?= Z.abs rhs else s ?= rhs
          else
@@ -244,13 +244,13 @@ Definition qrepr_eq (n1 d1 n2 d2 : Z) : bool :=
 (** rational/src/cmp.rs repr_cmp_ubig::<ABS> *)
 Definition qrepr_cmp_ubig (abs : bool) (n d u : Z) : comparison :=
   if negb abs && (match sign_of n with Negative => true | Positive => false end) then Lt
-  else est_filter (qb n d) (ib u) Positive (Z.abs n ?= Z.abs (u * d)).
+  else est_filter (qb n d) (ib u) Positive (fun _ => Z.abs n ?= Z.abs (u * d)).
 
 (** rational/src/cmp.rs repr_cmp_ibig::<ABS> *)
 Definition qrepr_cmp_ibig (abs : bool) (n d i : Z) : comparison :=
   let k := fun sign =>
     est_filter (qb n d) (ib i) sign
-      (if abs then Z.abs n ?= Z.abs (i * d) else n ?= i * d) in
+      (fun _ => if abs then Z.abs n ?= Z.abs (i * d) else n ?= i * d) in
   if abs then k Positive else sign_filter (sign_of n) (sign_of i) k.
 
 (** rational/src/cmp.rs with_float::repr_cmp_fbig::<B, ABS> (rational on the left) *)
@@ -259,12 +259,40 @@ Definition qrepr_cmp_fbig (abs : bool) (n d B s e : Z) : comparison :=
   else
     let k := fun sign =>
       est_filter (qb n d) (fb B s e) sign
-        (let lhs := n in let rhs := s * d in
+        (fun _ => let lhs := n in let rhs := s * d in
          let '(lhs, rhs) := if e <? 0 then (lhs * B ^ (- e), rhs) else (lhs, rhs * B ^ e) in
          if abs then Z.abs lhs ?= Z.abs rhs else lhs ?= rhs) in
     if abs then k Positive else sign_filter (sign_of n) (sign_of s) k.
 
 End Estimates.
+
+(** float/src/cmp.rs repr_cmp_same_base::<B, ABS> (PartialOrd/Ord of Repr and FBig of one base; AbsOrd of FBig).
+    [dub] is Repr::digits_ub (an f32 over-estimate of the number of digits of the significand). *)
+Section SameBase.
+Variable dub : Z -> Z -> Z.                    (* base, significand *)
+Definition fsame_cmp (abs : bool) (B s1 e1 s2 e2 : Z) : comparison :=
+  match f_is_inf s1 e1, f_is_inf s2 e2 with
+  | true, true => if abs then Eq else e1 ?= e2
+  | false, true => if abs || (0 <=? e2) then Lt else Gt
+  | true, false => if abs || (0 <=? e1) then Gt else Lt
+  | false, false =>
+    let k := fun sign =>
+      match s1 =? 0, s2 =? 0 with
+      | true, true => Eq
+      | true, false => Lt
+      | false, true => Gt
+      | false, false =>
+        if e1 >? e2 + dub B s2 then smul sign Gt
+        else if e2 >? e1 + dub B s1 then smul sign Lt
+        else match e1 ?= e2 with
+             | Eq => if abs then Z.abs s1 ?= Z.abs s2 else s1 ?= s2
+             | Gt => let l := shl_digits B s1 (e1 - e2) in if abs then Z.abs l ?= Z.abs s2 else l ?= s2
+             | Lt => let r := shl_digits B s2 (e2 - e1) in if abs then Z.abs s1 ?= Z.abs r else s1 ?= r
+             end
+      end in
+    if abs then k Positive else sign_filter (sign_of s1) (sign_of s2) k
+  end.
+End SameBase.
 
 (** impl_num_ord_with_float for the rational Repr: num_partial_cmp(&f32/f64) *)
 Definition qrepr_cmp_prim (n d mb eb bits : Z) : option comparison :=
